@@ -87,7 +87,7 @@ theorem step_read (h : Pre e o) (n : Nat) : StepOk e o (endStep cfg mss e o (.re
       have hd : ∀ bs, (e.tcb.pollRecv cfg n).2.1 = .ok bs → e.del ++ bs = e.del := by
         intro bs hb; rw [h2 bs hb]; simp
       refine ⟨e.tcb, e.del, if (e.tcb.pollRecv cfg n).2.2 then [e.tcb.ackSeg cfg.recvCap 0 0] else [], ?_,
-        ⟨rfl, rfl, rfl, rfl, rfl, rfl⟩, rfl, ⟨rc, hri.congr_r ⟨rfl, rfl, rfl, rfl, id⟩ rfl⟩, ?_⟩
+        ⟨rfl, rfl, rfl, rfl, rfl, rfl, rfl⟩, rfl, ⟨rc, hri.congr_r ⟨rfl, rfl, rfl, rfl, id⟩ rfl⟩, ?_⟩
       · simp only [endStep]
         rw [h1]
         cases hres : (e.tcb.pollRecv cfg n).2.1 with
@@ -103,7 +103,7 @@ theorem step_read (h : Pre e o) (n : Nat) : StepOk e o (endStep cfg mss e o (.re
         · cases hsg
     · refine ⟨{ e.tcb with recvBuf := e.tcb.recvBuf.drop kk }, e.del ++ e.tcb.recvBuf.take kk,
         if (e.tcb.pollRecv cfg n).2.2 then [({ e.tcb with recvBuf := e.tcb.recvBuf.drop kk } : Tcb).ackSeg cfg.recvCap 0 0] else [], ?_,
-        ⟨rfl, rfl, rfl, rfl, rfl, rfl⟩, rfl, ⟨rc, ?_⟩, ?_⟩
+        ⟨rfl, rfl, rfl, rfl, rfl, rfl, rfl⟩, rfl, ⟨rc, ?_⟩, ?_⟩
       · simp only [endStep]
         rw [h1, h2]
         dsimp only
@@ -159,7 +159,7 @@ theorem step_segment (h : Pre e o) : StepOk e o (endStep cfg mss e o .segment) :
     SendGrow.refl_of rfl rfl (by intro hw; show t'.wrClosed = true; rw [hwr]; exact hw)
   obtain ⟨rc, hri⟩ := h.recv
   obtain ⟨b, f, k, hsi⟩ := hsend
-  refine ⟨hg, ⟨b, f, k, hsi.congr ⟨rfl, rfl, rfl, rfl, rfl, rfl⟩ rfl rfl⟩, ?_, ⟨rc, hri.congr_r ?_ rfl⟩, ?_⟩
+  refine ⟨hg, ⟨b, f, k, hsi.congr ⟨rfl, rfl, rfl, rfl, rfl, rfl, rfl⟩ rfl rfl⟩, ?_, ⟨rc, hri.congr_r ?_ rfl⟩, ?_⟩
   · intro sg hsg
     simp only [List.mem_append] at hsg
     rcases hsg with hsg | hsg
@@ -206,7 +206,7 @@ theorem step_emitCtl (h : Pre e o) (sg : Seg) : StepOk e o (endStep cfg mss e o 
   · exact stepOk_refl h
   rename_i hc
   simp only [ctlOk, Bool.and_eq_true, List.isEmpty_iff, Bool.not_eq_eq_eq_not, Bool.not_true, decide_eq_true_eq] at hc
-  have := stepOk_same (e := e) (o := o) h [sg] ⟨rfl, rfl, rfl, rfl, rfl, rfl⟩ ⟨rfl, rfl, rfl, rfl, id⟩ h.wfe.rcv
+  have := stepOk_same (e := e) (o := o) h [sg] ⟨rfl, rfl, rfl, rfl, rfl, rfl, rfl⟩ ⟨rfl, rfl, rfl, rfl, id⟩ h.wfe.rcv
     (by intro sg' hsg'; simp only [List.mem_singleton] at hsg'; subst hsg'; exact ⟨hc.1.1.1, hc.1.1.2, hc.1.2, hc.2⟩)
   exact this
 
@@ -226,14 +226,14 @@ theorem step_recv (h : Pre e o) (i : Nat) : StepOk e o (endStep cfg mss e o (.re
       have hopen' : e.tcb.state ≠ .closed := by simpa using hopen
       obtain ⟨bs, f, k, hsi⟩ := h.send
       obtain ⟨rc, hri⟩ := h.recv
-      obtain ⟨b', f', k', hs1⟩ := send_onAck sg hsi h.nwe hok.2.1
+      obtain ⟨b', f', k', hs1⟩ := send_onAck cfg.fixSndMax sg hsi h.nwe hok.2.1
       obtain ⟨rc', hr1⟩ := recv_handleEstablished (cfg := cfg) hri hok h.nwo hopen'
       -- the sender half after data / FIN processing is that after ACK processing
-      have hss : SameSend (e.tcb.onAck sg) (e.tcb.handleEstablished cfg sg).1 := by
+      have hss : SameSend (e.tcb.onAck cfg.fixSndMax sg) (e.tcb.handleEstablished cfg sg).1 := by
         unfold Tcb.handleEstablished
         dsimp only
         rw [Tcb.onFin_send, Tcb.onData_send]
-        exact ⟨rfl, rfl, rfl, rfl, rfl, rfl⟩
+        exact ⟨rfl, rfl, rfl, rfl, rfl, rfl, rfl⟩
       have hsend : SendInv { e with tcb := (e.tcb.handleEstablished cfg sg).1 } b' f' k' :=
         hs1.congr hss rfl rfl
       have hwr : (e.tcb.handleEstablished cfg sg).1.wrClosed = e.tcb.wrClosed := by
@@ -260,7 +260,7 @@ theorem step_recv (h : Pre e o) (i : Nat) : StepOk e o (endStep cfg mss e o (.re
         intro ex hex
         have hg : SendGrow e { e with tcb := (e.tcb.handleEstablished cfg sg).1, out := e.out ++ ex } :=
           SendGrow.refl_of rfl rfl (by intro hw; show (e.tcb.handleEstablished cfg sg).1.wrClosed = true; rw [hwr]; exact hw)
-        refine ⟨hg, ⟨b', f', k', hsend.congr ⟨rfl, rfl, rfl, rfl, rfl, rfl⟩ rfl rfl⟩, ?_,
+        refine ⟨hg, ⟨b', f', k', hsend.congr ⟨rfl, rfl, rfl, rfl, rfl, rfl, rfl⟩ rfl rfl⟩, ?_,
           ⟨rc', ⟨hr1.le, hr1.stream, hr1.nxt, hr1.fin⟩⟩, ⟨hrcvlt, hnxtlt, hunalt⟩⟩
         intro s' hs'
         simp only [List.mem_append] at hs'
